@@ -372,8 +372,15 @@ fn plain_dump(n: &XmlNode) -> String {
     let empty = St { doc: match n { XmlNode::Document(d) => d.clone(), _ => return String::new() }, handles: vec![], by_id: HashMap::new() };
     let mut seen = vec![];
     let d = dump(&empty, n, 0, &mut seen).replace("h?:", "");
-    // an empty text node denotes no character; adjacent text nodes read back as one
-    let mut out = d.replace("T()", "");
+    // an empty text node denotes no character; adjacent text nodes read back as one; a reference to a predefined
+    // entity denotes its character (the printer writes `>` after `]]` as `&gt;`)
+    let mut out = d
+        .replace("R(amp)", "T(%26)")
+        .replace("R(lt)", "T(%3C)")
+        .replace("R(gt)", "T(%3E)")
+        .replace("R(quot)", "T(%22)")
+        .replace("R(apos)", "T(%27)")
+        .replace("T()", "");
     loop {
         let next = merge_text(&out);
         if next == out {
